@@ -549,9 +549,15 @@ def run_one(res, sc, ms, tier, bound, only_driver=None, only=None):
                 scj = {"family": "ring-fault", "mask": mask, "rule": list(rule) if rule else None,
                        "history": list(hist), "tier": tier,
                        "fault": [list(key[0]), key[1], key[2], k]}
-                explore_scenario(res, scj, built, DRIVERS[k % 2], ops2,
-                                 Plan(rules=rules, faults={key: k}), 1 if tier == "quick" else 2,
-                                 max_execs=300 if tier == "quick" else 5000)
+                # both drivers for every fault (the fault's exception class rotates with k: the
+                # driver must not be tied to k as well)
+                for driver in DRIVERS:
+                    if only_driver and driver != only_driver:
+                        continue
+                    explore_scenario(res, scj, built, driver, ops2,
+                                     Plan(rules=rules, faults={key: k}),
+                                     1 if tier == "quick" else 2,
+                                     max_execs=300 if tier == "quick" else 5000)
 
 
 def run(tier, seed):
